@@ -414,10 +414,13 @@ class Program:
         w = self.EoWriter()
         self.cls(name).serialize(w, obj)
         data = bytes(w.to_bytearray())
-        r = self.EoReader(data)
+        r = self.counting_reader(data)
         if self.ctx[name]:
             r.chunked_reading_mode = True
-        back = self.cls(name).deserialize(r)
+        try:
+            back = self.cls(name).deserialize(r)
+        except NonTermination as e:
+            return {"kind": "does-not-terminate", "property": "C01", "detail": str(e), "bytes": list(data)}
         a, b = self.to_model(obj), self.to_model(back)
         a["byte_size"] = b["byte_size"]
         _strip_sizes(a)
